@@ -162,6 +162,30 @@ func runC07(c *core.Ctx) {
 			if st.name == "local" {
 				reach := obs.Nodes(ee)
 				reach = append(reach, errors.UnwrapAll(ee), errors.Cause(ee))
+				// ... and through each layer's own Unwrap() / Cause() methods and the
+				// standard library's walk (errors.Unwrap / Is / As follow Unwrap()).
+				reach = append(reach, stdWalk(ee)...)
+				for _, x := range obs.Nodes(ee) {
+					var u, cz error
+					hasU, hasC := false, false
+					if w, ok := x.(interface{ Unwrap() error }); ok {
+						u, hasU = w.Unwrap(), true
+						reach = append(reach, u)
+					}
+					if w, ok := x.(interface{ Cause() error }); ok {
+						cz, hasC = w.Cause(), true
+						reach = append(reach, cz)
+					}
+					if w, ok := x.(interface{ Unwrap() []error }); ok {
+						reach = append(reach, w.Unwrap()...)
+					}
+					if hasU && hasC && !sameErr(u, cz) {
+						c.Violate("unwrap-vs-cause/"+famShort(string(errors.GetTypeKey(x))), "a layer's Unwrap() and Cause() methods return different errors", fmt.Sprintf("%s\n%T", t, x))
+					}
+					if hasU && !sameErr(u, errors.UnwrapOnce(x)) {
+						c.Violate("unwrap-method/"+famShort(string(errors.GetTypeKey(x))), "a layer's Unwrap() method does not return its visible cause", fmt.Sprintf("%s\n%T", t, x))
+					}
+				}
 				for _, h := range hidden {
 					for _, x := range reach {
 						if comparable(h.Err) && comparable(x) && x == h.Err {
